@@ -15,7 +15,7 @@ PROP = {
     "assumptions": [
         "the same (method, URL pattern) pair is declared at most once per set (a repeated pair is last-writer-wins by construction and is not generated)",
         "every declaration in a set uses its own remedy type, so checkForDuplicates does not reject the set (rejection itself is order-dependent and outside this statement)",
-        "request URLs contain no empty, '{..}'-shaped or '*' segments",
+        "request URLs contain no empty, '{..}'-shaped or '*' segments inside; one request in eight ends in separators ('/', '.', '//'): it is judged against the URL without them (the engine documents that it ignores separators around a URL), and 'no policy at all' is accepted too",
         "path parameters reported in addition to those of the winning pattern are accepted when they are the request's segment at a position where a declared pattern carries that parameter (the lookup keeps the parameters of a branch it abandoned for an ancestor wildcard)",
         "the selection by method out of the looked-up map (runner.getRemedies/getDiagnoses, unexported) is restated in the harness; "
         "TestDispatchAgreesWithSelection cross-checks that restatement against runner.DispatchOnRequest with fixed_response markers",
